@@ -83,6 +83,9 @@ def generate(seed, tier="quick"):
         "env": {"cpu_count": r.choice([1, 2, 4, 16]), "path_cost": r.choice([1e-6, 1e-3]),
                 "spawn_cost": 1e-4},
     }
+    if sc["nproc"] != 1 and r.random() < 0.2:
+        # fault: one task of the pool's map call dies in its worker (before or after doing its work)
+        sc["env"]["task_fail_one_in"] = r.choice([1, 2])
     return sc
 
 
